@@ -4,6 +4,7 @@ package main
 
 import (
 	"fmt"
+	"math"
 	"math/rand"
 	"sort"
 	"strings"
@@ -31,7 +32,7 @@ func init() {
 		Run: c17Run,
 		Floors: func(m *Merged, tier string) []string {
 			var u []string
-			for _, c := range []string{"overlap_hash_path", "overlap_scan_path", "overlap_true", "overlap_false", "in_true", "in_false", "empty_literal_left", "empty_literal_right", "type_mismatch_errors", "sets_accepted", "symmetry_checked", "folded", "shared_is_max_first", "single_element_lists", "refill_in", "refill_overlap", "nil_slice_list_variables", "padded_integer_literals"} {
+			for _, c := range []string{"overlap_hash_path", "overlap_scan_path", "overlap_true", "overlap_false", "in_true", "in_false", "empty_literal_left", "empty_literal_right", "type_mismatch_errors", "sets_accepted", "symmetry_checked", "folded", "shared_is_max_first", "single_element_lists", "refill_in", "refill_overlap", "nil_slice_list_variables", "padded_integer_literals", "sorted_lists_with_extremes"} {
 				if m.C(c) == 0 {
 					u = append(u, c+" = 0")
 				}
@@ -169,6 +170,26 @@ func c17Run(w *W, idx int) {
 				a3 := mkList(r, la, 1000, isS, order, dup)
 				b3 := mkList(r, lb, 1000+int64(3*(la/2)), isS, 2, dup)
 				c17Overlap(w, r, a3, b3, "many-shared")
+			}
+			if !isS && la > 1 && lb > 0 && order == 0 {
+				// ascending lists whose elements lie more than 2^63 apart (differences overflow)
+				a4 := mkList(r, la, 1000, false, 0, false)
+				b4 := mkList(r, lb, 1000+int64(3*(la/2)), false, 0, false)
+				a4.set(0, math.MinInt64)
+				if la > 2 {
+					a4.set(1, []int64{0, -1, -1000, math.MinInt64 / 2}[r.Intn(4)]) // neighbours stay less than 2^63 apart
+				}
+				if r.Intn(2) == 0 {
+					a4.set(la-1, math.MaxInt64)
+				}
+				if r.Intn(2) == 0 && lb > 1 {
+					b4.set(lb-1, math.MaxInt64-1)
+				}
+				c17Overlap(w, r, a4, b4, "extremes-sorted")
+				b5 := mkList(r, lb, 900000, false, 0, false)
+				b5.set(0, math.MinInt64) // the only shared element is the minimum
+				c17Overlap(w, r, a4, b5, "extremes-sorted")
+				w.Inc("sorted_lists_with_extremes")
 			}
 			// membership
 			c17In(w, r, a, isS)
@@ -325,6 +346,9 @@ func c17Operand(l c17List, p c17Pass, name string, consts, vals map[string]inter
 		}
 		x := make([]int32, len(l.ints))
 		for i, v := range l.ints {
+			if v < math.MinInt32 || v > math.MaxInt32 {
+				return nil, false // not representable in this element type
+			}
 			x[i] = int32(v)
 		}
 		vals[name] = x
